@@ -198,6 +198,14 @@ def check(ctx):
     drains = [n for n in g.nodes if n.kind == 'stmt' and ((isinstance(n.ast, ast.Assign) and norm(n.ast.targets[0]) == '%s.default_fetch_as' % lc and norm(n.ast.value) in ('[]', 'list()'))
                                                           or (isinstance(n.ast, ast.Expr) and method_call(n.ast.value, 'clear') and norm(n.ast.value.func.value) == '%s.default_fetch_as' % lc))]
     ok = bool(adds) and any(g.dominates(gl[0], d) and g.dominates(d, acc[0]) for d in drains)
+    # ... on every way out once the loop has run to its end - also when the configuration is then rejected (a caller that shortens the
+    # configuration and adds it again would get every default-typed variable twice)
+    fornode = [n for n in gl if n.kind == 'for']
+    if ok and fornode:
+        body_ids = {n.id for n in g.loop_body_nodes(fornode[0])}
+        into_body = [e for e in fornode[0].succ if e.dst.id in body_ids]
+        esc = g.path_avoiding(fornode[0], [g.exit, g.raise_exit], avoid=drains, avoid_edges=into_body)
+        ok = esc is None
     ctx.inst('R5', ac, 'resolved-names-drained', ok, 'names resolved into `variables` must be removed from default_fetch_as before acceptance (re-adding would double the variables)')
 
     # ---- R6 ---------------------------------------------------------------------------------------
